@@ -23,7 +23,8 @@ type echoCase struct {
 	K        int    `json:"k"`
 	SignMask uint32 `json:"sign_mask"` // reflect styles: bit i = param i signed, bit 16+j = result j signed ("u" styles use the complement)
 	Class    string `json:"class"`
-	Conc     bool   `json:"conc,omitempty"` // additionally two goroutines calling concurrently (race flavour)
+	Conc     bool   `json:"conc,omitempty"`  // additionally two goroutines calling concurrently (race flavour)
+	Mixed    bool   `json:"mixed,omitempty"` // guest with a mixed import section and a decoy type 0 (mixed.go); run after a plain control
 }
 
 type finding struct {
@@ -42,8 +43,9 @@ type caseResult struct {
 	MaskTests    int64            `json:"mask_tests"`
 	Reentries    int64            `json:"reentries"`
 	ConcCalls    int64            `json:"conc_calls,omitempty"`
-	UpperHost    int64            `json:"upper_host,omitempty"` // 32-bit params whose slot upper half was non-zero at the host (allowed)
-	UpperGo      int64            `json:"upper_go,omitempty"`   // 32-bit results whose slot upper half was non-zero at Go (allowed)
+	MixedCalls   int64            `json:"mixed_calls,omitempty"` // calls through a guest with a mixed import section
+	UpperHost    int64            `json:"upper_host,omitempty"`  // 32-bit params whose slot upper half was non-zero at the host (allowed)
+	UpperGo      int64            `json:"upper_go,omitempty"`    // 32-bit results whose slot upper half was non-zero at Go (allowed)
 	UpperGoBy    map[string]int64 `json:"upper_go_by,omitempty"`
 	ByStyle      map[string]int64 `json:"by_style"`
 	ByForm       map[string]int64 `json:"by_form"`
@@ -500,9 +502,22 @@ func (x *engineRun) run(wasm []byte, styles []string) {
 		x.res.BuildErr = "host: " + err.Error()
 		return
 	}
-	x.guest, err = rt.InstantiateWithConfig(ctx, wasm, wazero.NewModuleConfig().WithName(guestName))
+	if x.spec.Mixed {
+		if _, err = rt.InstantiateWithConfig(ctx, provWasm, wazero.NewModuleConfig().WithName(provName)); err != nil {
+			x.res.BuildErr = "provider: " + err.Error()
+			return
+		}
+	}
+	func() {
+		defer func() {
+			if r := recover(); r != nil {
+				err = fmt.Errorf("panic while compiling/instantiating: %v", r)
+			}
+		}()
+		x.guest, err = rt.InstantiateWithConfig(ctx, wasm, wazero.NewModuleConfig().WithName(guestName))
+	}()
 	if err != nil {
-		x.res.BuildErr = "guest: " + err.Error()
+		x.res.BuildErr = x.engine + " guest: " + err.Error()
 		return
 	}
 	for i := 0; i < nTargets; i++ {
@@ -553,7 +568,79 @@ func (x *engineRun) run(wasm []byte, styles []string) {
 	}
 }
 
+// runCase runs a case; a mixed-import case first runs its plain control (same
+// signature, values and styles with a functions-only import section): what
+// only the mixed guest shows is reported under "mixed-import-section:".
 func runCase(tc *echoCase) *caseResult {
+	if !tc.Mixed {
+		return runCase1(tc)
+	}
+	plain := *tc
+	plain.Mixed = false
+	a := runCase1(&plain)
+	if a.BuildErr != "" || a.Inconclusive != "" {
+		return a
+	}
+	b := runCase1(tc)
+	inPlain := map[string]bool{}
+	for _, f := range a.Findings {
+		inPlain[f.Sig] = true
+	}
+	if b.BuildErr != "" {
+		eng := "compiler"
+		if strings.HasPrefix(b.BuildErr, "interpreter") {
+			eng = "interpreter"
+		}
+		b.Findings = append(b.Findings, finding{Sig: "guest-does-not-build:" + eng, Detail: "signature " + tc.Sig + ": " + core.Trunc(b.BuildErr, 500),
+			Witness: map[string]any{"case": tc, "error": core.Trunc(b.BuildErr, 2000)}})
+		b.BuildErr = ""
+		b.Engines = 2
+	}
+	for _, f := range b.Findings {
+		if inPlain[f.Sig] {
+			continue
+		}
+		{
+			f.Witness["unclassified_sig"] = f.Sig
+			f.Sig = "mixed-import-section:" + mixedSig(f.Sig)
+			f.Detail = "only with non-function imports interleaved and a decoy type 0 (the functions-only control guest is clean): " + f.Detail
+		}
+		a.Findings = append(a.Findings, f)
+	}
+	a.Calls += b.Calls
+	a.HostCalls += b.HostCalls
+	a.Values += b.Values
+	a.Masks += b.Masks
+	a.MaskTests += b.MaskTests
+	a.Reentries += b.Reentries
+	a.MixedCalls = b.Calls
+	if b.Engines != 2 {
+		a.Engines = b.Engines
+	}
+	return a
+}
+
+// mixedSig collapses what only the mixed guest shows to the direction that is
+// wrong (one root cause otherwise fans out over every style and type).
+func mixedSig(sig string) string {
+	eng := ""
+	for _, e := range []string{":compiler", ":interpreter"} {
+		if strings.HasSuffix(sig, e) {
+			eng = e
+		}
+	}
+	switch {
+	case strings.Contains(sig, "-param:"):
+		return "host-function-receives-other-values" + eng
+	case strings.Contains(sig, "-result:"):
+		return "guest-receives-other-results" + eng
+	case strings.Contains(sig, "guest-local-clobbered"):
+		return "guest-local-clobbered-across-host-call" + eng
+	}
+	return sig
+}
+
+func runCase1(tc *echoCase) *caseResult {
 	res := &caseResult{ByStyle: map[string]int64{}, ByForm: map[string]int64{}, Classes: map[string]int64{}}
 	P, R := parseSig(tc.Sig)
 	if len(P) > maxArity || len(R) > maxArity {
@@ -561,7 +648,7 @@ func runCase(tc *echoCase) *caseResult {
 		return res
 	}
 	r := core.NewRng(int64(tc.Seed), 8)
-	spec := &guestSpec{P: P, R: R, K: tc.K}
+	spec := &guestSpec{P: P, R: R, K: tc.K, Mixed: tc.Mixed, Layout: tc.Seed ^ 0x5EED}
 	spec.PV = genVectors(r, P, tc.K, int(tc.Seed%7))
 	spec.RV = genVectors(r, R, tc.K, int(tc.Seed%5)+3)
 	spec.Styles = stylesFor(P, R)
